@@ -127,6 +127,20 @@ mut("streamq_count_simul", "pymtl3/stdlib/stream/queues.py",
     ["C17"])
 
 
+mut("magicmem_rtl_reprocess_revert_fix", "pymtl3/stdlib/stream/magic_memory.py",
+    "        if s.req_stalls[i].send.val & s.req_stalls[i].send.rdy:\n", "        if s.req_stalls[i].send.val:\n", ["C18"])
+mut("bytearray_read_off_by_one", "pymtl3/extra/pypy/fast_bytearray_funcs.py",
+    "    addr  = begin + nbytes - 1\n", "    addr  = begin + nbytes - 1 - (1 if nbytes == 3 else 0)\n", ["C18"])
+mut("amo_min_unsigned", "pymtl3/stdlib/mem/MagicMemoryFL.py",
+    "             MemMsgType.AMO_MIN  : lambda m,a : m if m.int() < a.int() else a,",
+    "             MemMsgType.AMO_MIN  : lambda m,a : m if m < a else a,", ["C18"])
+mut("delaypipe_rotate_occupied", "pymtl3/stdlib/delays/DelayPipeCL.py",
+    "        if s.pipeline[-1] is None:\n          s.pipeline.rotate()\n\n      # Model decoupled",
+    "        if s.pipeline[-1] is None or s.delay == 1:\n          s.pipeline.rotate()\n\n      # Model decoupled", ["C18", "C20"])
+mut("magicmem_cl_port_priority_skip", "pymtl3/stdlib/mem/MagicMemoryCL.py",
+    "            s.mem.write( req.addr, len_, req.data[0:len_<<3] )\n            # FIXME do we really set len=0 in response when doing subword wr?\n            # resp = resp_classes[i]( req.type_, req.opaque, 0, req.len, 0 )\n            resp = resp_classes[i]( req.type_, req.opaque, 0, 0, 0 )\n\n          #\n          # AMOs",
+    "            s.mem.write( req.addr, len_, req.data[0:len_<<3] if i < 3 else req.data[0:8] )\n            # FIXME do we really set len=0 in response when doing subword wr?\n            # resp = resp_classes[i]( req.type_, req.opaque, 0, req.len, 0 )\n            resp = resp_classes[i]( req.type_, req.opaque, 0, 0, 0 )\n\n          #\n          # AMOs", ["C18"])
+
 def load_extra():
   p = os.path.join(VERIF, "tools", "mutants_extra.json")
   if os.path.exists(p):
